@@ -30,30 +30,18 @@ def run(cmd, **kw):
     return subprocess.run(cmd, shell=True, capture_output=True, text=True, **kw)
 
 
-def main() -> int:
-    ap = argparse.ArgumentParser()
-    ap.add_argument("--dir", default="/verif/seeded")
-    ap.add_argument("--only", nargs="*")
-    ap.add_argument("--json")
-    ap.add_argument("--repo", default="/repo")
-    args = ap.parse_args()
-
+def evaluate(ids, seed_dir, repo):
+    """Worker: evaluate a list of seeded changes in a private scratch worktree."""
     wt = tempfile.mkdtemp(prefix="seedwt_", dir="/tmp")
     os.rmdir(wt)
-    r = run(f"git -C {args.repo} worktree add --detach {wt} HEAD")
+    r = run(f"git -C {repo} worktree add --detach {wt} HEAD")
     if r.returncode:
-        print(r.stderr)
-        return 2
+        return [{"id": i, "target": i.split("-")[0], "error": r.stderr.strip()[:200]} for i in ids]
     rows = []
     try:
-        ids = sorted(os.listdir(args.dir))
         for sid in ids:
-            d = os.path.join(args.dir, sid)
+            d = os.path.join(seed_dir, sid)
             patch = os.path.join(d, "patch.diff")
-            if not os.path.isfile(patch):
-                continue
-            if args.only and sid not in args.only:
-                continue
             meta = {}
             if os.path.exists(os.path.join(d, "meta.json")):
                 meta = json.load(open(os.path.join(d, "meta.json")))
@@ -61,7 +49,6 @@ def main() -> int:
             r = run(f"git -C {wt} apply {patch}")
             if r.returncode:
                 rows.append({"id": sid, "target": target, "error": "patch does not apply: " + r.stderr.strip()[:200]})
-                print(f"{sid:14s} target={target} PATCH-DOES-NOT-APPLY")
                 run(f"git -C {wt} checkout -- .")
                 continue
             try:
@@ -80,23 +67,51 @@ def main() -> int:
                 fired, errors = {}, {"*": [str(err)]}
             finally:
                 run(f"git -C {wt} checkout -- .")
-            hit = target in fired
-            row = {
+            rows.append({
                 "id": sid,
                 "target": target,
-                "detected": hit,
+                "detected": target in fired,
                 "rules": fired.get(target, []),
                 "other_properties": {k: v for k, v in fired.items() if k != target},
                 "analysis_errors": errors,
                 "summary": meta.get("summary", ""),
-            }
-            rows.append(row)
-            status = "DETECTED" if hit else ("ANALYSIS-ERROR" if target in errors else "missed")
-            others = ",".join(k for k in fired if k != target)
-            print(f"{sid:14s} target={target} {status:14s} rules={','.join(row['rules']) or '-':40s} also={others or '-'}"
-                  + (f" errors={errors}" if errors else ""))
+            })
     finally:
-        run(f"git -C {args.repo} worktree remove --force {wt}")
+        run(f"git -C {repo} worktree remove --force {wt}")
+    return rows
+
+
+def main() -> int:
+    ap = argparse.ArgumentParser()
+    ap.add_argument("--dir", default="/verif/seeded")
+    ap.add_argument("--only", nargs="*")
+    ap.add_argument("--json")
+    ap.add_argument("--repo", default="/repo")
+    ap.add_argument("--jobs", type=int, default=8)
+    args = ap.parse_args()
+
+    ids = [
+        sid for sid in sorted(os.listdir(args.dir))
+        if os.path.isfile(os.path.join(args.dir, sid, "patch.diff")) and (not args.only or sid in args.only or any(sid.startswith(o) for o in args.only if o.endswith("-")))
+    ]
+    jobs = max(1, min(args.jobs, len(ids)))
+    chunks = [ids[i::jobs] for i in range(jobs)]
+    from concurrent.futures import ProcessPoolExecutor
+
+    rows = []
+    with ProcessPoolExecutor(max_workers=jobs) as pool:
+        for part in pool.map(evaluate, chunks, [args.dir] * jobs, [args.repo] * jobs):
+            rows.extend(part)
+    rows.sort(key=lambda r: r["id"])
+    for row in rows:
+        if "error" in row:
+            print(f"{row['id']:14s} target={row['target']} {row['error']}")
+            continue
+        target, fired, errors = row["target"], row["other_properties"], row["analysis_errors"]
+        status = "DETECTED" if row["detected"] else ("ANALYSIS-ERROR" if target in errors else "missed")
+        others = ",".join(fired)
+        print(f"{row['id']:14s} target={target} {status:14s} rules={','.join(row['rules']) or '-':40s} also={others or '-'}"
+              + (f" errors={ {k: v[:1] for k, v in errors.items()} }" if errors else ""))
     n = len([r for r in rows if "detected" in r])
     k = len([r for r in rows if r.get("detected")])
     print(f"\n{k}/{n} seeded changes detected by the check of their target property")
